@@ -109,6 +109,20 @@ def make_const(c):
     return inner
 
 
+def make_rebindable(c):
+    """a closure whose captured value the application changes after the function was decorated
+    (a counter / configuration value / helper bound later in the enclosing scope)"""
+    box = c
+
+    def inner(x):
+        return [box, x]
+
+    def rebind(v):
+        nonlocal box
+        box = v
+    return inner, rebind
+
+
 def make_nested(c0, c1):
     def outer(x):
         def innermost(y):
@@ -178,12 +192,14 @@ POOL = [
     ('mutates_arg',     lambda n, a: m_append,                        (2, 2), [],                  'lst', False),
     ('rich_result',     lambda n, a: m_types,                         (1, 1), [],                  'any', False),
     ('closure_nested',  lambda n, a: make_nested(n, a),               (1, 1), [],                  'any', False),
+    ('closure_rebound', lambda n, a: make_rebindable(n),              (1, 1), [],                  'any', True),
     ('unpicklable',     lambda n, a: _unpicklable(),                  (0, 0), [],                  'any', False),
 ]
 NAMES = [p[0] for p in POOL]
 UNPICKLABLE = NAMES.index('unpicklable')
 
 VIAS = ['ctor3', 'ctor2', 'ctor1', 'decor', 'raw']
+REBOUND = NAMES.index('closure_rebound')
 
 _VARARGS = any(p.kind == inspect.Parameter.VAR_POSITIONAL
                for p in inspect.signature(rp.PythonTask.__new__).parameters.values())
@@ -243,6 +259,8 @@ def fn_cases(draw):
     name, _, (lo, hi), kws, kind, _ = POOL[idx]
     via = draw(st.sampled_from(VIAS + ['ctor1', 'ctor1'] if lo == 0 else
                                ['ctor3', 'ctor3', 'ctor2', 'decor', 'decor', 'raw']))
+    if name == 'closure_rebound':
+        via = draw(st.sampled_from(['decor', 'decor', 'decor', 'ctor3']))
     wild = draw(st.integers(0, 9)) == 0
     if wild:
         args   = draw(st.lists(S_ANY, max_size=3))
@@ -304,14 +322,25 @@ def _call(f, args, kwargs):
     return f(*args, **kwargs)
 
 
-def build(case):
+def build(case, late=True):
     idx = int(case['func']) % len(POOL)
-    return idx, POOL[idx][1](dec(case.get('n', 1)), dec(case.get('a')))
+    f = POOL[idx][1](dec(case.get('n', 1)), dec(case.get('a')))
+    if idx == REBOUND:
+        f, rebind = f
+        if late:
+            rebind(['rebound', dec(case.get('a'))])
+        else:
+            f.rebind_late = lambda: rebind(['rebound', dec(case.get('a'))])
+    return idx, f
 
 
 def encode(via, f, args, kwargs):
     if via == 'decor':
-        return rp.pythontask(f)(*args, **kwargs)
+        late = f.__dict__.pop('rebind_late', None) if inspect.isfunction(f) else None
+        decorated = rp.pythontask(f)
+        if late:
+            late()      # the application changes what the closure captured, then creates the task
+        return decorated(*args, **kwargs)
     if via == 'raw':
         return serialize_bson({'func': serialize_obj(f), 'args': tuple(args),
                                'kwargs': dict(kwargs)})
@@ -344,7 +373,11 @@ def dispatch(enc):
 
 
 def run_fn(case, res):
-    idx, f = build(case)
+    idx, f = build(case, late=False)
+    late = getattr(f, 'rebind_late', None)
+    if late is not None and case.get('via') != 'decor':
+        del f.rebind_late
+        late()          # other encodings: the value is changed before the function is handed over
     name   = NAMES[idx]
     via    = case.get('via') if case.get('via') in VIAS else 'ctor3'
     args   = dec(case.get('args') or [])
@@ -355,6 +388,8 @@ def run_fn(case, res):
     if via == 'ctor2': kwargs = {}
 
     res.label('fn', 'fn:via=%s' % via, 'fn:%s' % name)
+    if idx == REBOUND and via == 'decor':
+        res.label('fn:closure_changed_between_decoration_and_task_creation')
     res.nontrivial = bool(kwargs) or POOL[idx][5]
     sigvia = 'ctor_default_kwargs' if via in ('ctor1', 'ctor2') else via
 
